@@ -58,6 +58,9 @@ CHECKS = {
     "C11": dict(ready=True, category="exploration", technique="runtime monitoring: round-trip identity monitor on documents (own JSON reader, numbers compared from their literals within 2 ulp) and differential monitor of read_init_solution against the solution JSON; CSV import compared field by field with the generated tables",
         text="(1) ser(parse(ser(d))) == ser(d) and d within ser(parse(d)) for problems (G1 + an extension pass adding every enum variant and optional field), matrices and solutions (solver output and synthetic ones with transit stops, commute, violations, metrics); floors require every enum variant and every optional field present and absent. (2) solver output read back by read_init_solution: per vehicle shift the same ordered (job, task, place index by tag, location, window in which service started) and the same unassigned set. (3) generated CSV tables -> import -> must validate and carry exactly the tables' data.",
         note="Clause 1 is decided on the serde model; clause 2 uses tagged multi-jobs as the docs demand; times/breaks/reloads not compared; transit/commute solutions and required breaks inside point stops are declared unsupported by the reader (inconclusive).", design_ref="DESIGN.md §3 C11"),
+    "C05": dict(ready=True, category="exploration", technique="runtime monitoring with repository hooks: digest of the module-private RouteState/SolutionState (hook H1a) compared with a from-scratch recomputation at every hand-over of operator histories and, through a process-global observer (hook H1b), after every applied insertion inside histories and real solves",
+        text="recompute(s) = deep copy, clear every route state, goal.accept_route_state per route, mark stale, goal.accept_solution_state - the entry points the code itself uses. At every step output of 5-40 step histories (10 recreates, 8 ruins, 6 local operators, default operator, static/dynamic hyper-heuristic, manual ruin + restore) all route keys of all routes, all solution keys, goal.fitness and total_order are compared; after every applied insertion (>= 10^5 per quick run, also inside real solves) the keys of the route that received it. Evidence lists comparisons per key and hand-over kind; every non-opaque key seen must have been compared at both points.",
+        note="Routes whose tour the recompute itself changes are inconclusive; opaque value types are tabled; a defect shared by the incremental and the from-scratch path is invisible by construction (C01 is the independent oracle).", design_ref="DESIGN.md §3 C05"),
     "C03": dict(ready=True, category="exploration", technique="runtime monitoring: replay oracle recomputing schedule/load/distance/statistics/cost from routing data and visiting order, compared with every reported number",
         text="O1 replays each tour of each recorded solution from (visiting order, first departure): stop arrival/departure within the one-unit output rounding, per-stop load and cumulative distance exactly, tour and overall statistics, cost = fixed + distance*cd + duration*ct, and that the reported place tag belongs to a place explaining the reported interval.",
         note="Integral matrices/durations; fractional profile scale widens the per-leg split tolerance; tours with transit stops/commute only per-stop consistency (not generated).", design_ref="DESIGN.md §3 C03"),
